@@ -92,6 +92,22 @@ func opVerUn(r *hx.Run, b []byte) {
 	if out == "panic" {
 		r.Fail("", "Version.UnmarshalText panics on hex:"+hx.Hex(b))
 	}
+	if i := bytes.IndexByte(b, ':'); i >= 0 && strings.HasPrefix(out, "ok ") {
+		// what is accepted is kind ":" up to ten int32 literals, and the slots are those numbers
+		var v claircore.Version
+		v.UnmarshalText(b)
+		parts := strings.Split(string(b[i+1:]), ".")
+		bad := len(parts) > 10
+		for k, p := range parts {
+			n, err := strconv.ParseInt(p, 10, 32)
+			if err != nil || (k < 10 && int64(v.V[k]) != n) {
+				bad = true
+			}
+		}
+		if bad {
+			r.Fail("", fmt.Sprintf("Version.UnmarshalText accepted %q as slots %s", b, slots(v.V)))
+		}
+	}
 	r.Op("ver-un "+hx.Hex(b), out, true)
 	// toolkit/types carries a copy of the same type and codec: same model line
 	out2 := hx.Guard(func() string {
@@ -235,12 +251,20 @@ func randDigest(rnd *hx.Rand) claircore.Digest {
 	if rnd.Chance(1, 3) {
 		algo, sz = claircore.SHA512, 64
 	}
-	d, err := claircore.NewDigest(algo, randBytes(rnd, "", sz))
+	sum := randBytes(rnd, "", sz)
+	d, err := claircore.NewDigest(algo, sum)
 	if err != nil {
-		panic(err)
+		// the statement quantifies over every constructible digest: a checksum of the algorithm's size must construct
+		if curRun != nil {
+			curRun.Fail("", fmt.Sprintf("NewDigest(%q, %d bytes) fails: %v", algo, sz, err))
+		}
+		d, _ = claircore.NewDigest(claircore.SHA256, sum[:32])
 	}
 	return d
 }
+
+// curRun lets the generators report a value that cannot even be constructed.
+var curRun *hx.Run
 
 var strPool = []string{"", "a", "openssl", "1.0.2k-fips", "héllo wörld", "日本語", "with \"quotes\" and \\ backslash", "tab\tnewline\n", "<html>&amp;", "  ", "NULL", "0", strings.Repeat("x", 300)}
 
@@ -263,6 +287,8 @@ func randCPE(rnd *hx.Rand) cpe.WFN {
 	}
 	return w
 }
+
+var notCarried = map[string]bool{"IndexReport.Files": true, "Package.PackageDB": true, "Package.Filepath": true, "Package.RepositoryHint": true}
 
 // fill sets v (settable) to a random value of its type, honouring the
 // invariants of the special types and leaving `json:"-"` fields zero.
@@ -353,7 +379,8 @@ func fill(rnd *hx.Rand, v reflect.Value, depth int) {
 		t := v.Type()
 		for i := 0; i < t.NumField(); i++ {
 			f := t.Field(i)
-			if f.PkgPath != "" || f.Tag.Get("json") == "-" {
+			// what JSON does not carry is fixed here (not read from the tags): hiding one more field is a loss
+			if f.PkgPath != "" || notCarried[t.Name()+"."+f.Name] {
 				continue
 			}
 			fill(rnd, v.Field(i), depth+1)
@@ -398,6 +425,7 @@ func Run(cfg hx.Config) error {
 	}
 	r.Rule = "protocol lines: every enum member, every substring of the stringer name tables, all strings up to length 2 over the table alphabets, generated/mutated version and digest texts, arbitrary bytes; oracle cases: JSON/text/SQL round trips of generated values of every public model type (reflection-filled, special types valid); a case is non-trivial when distinct by its text"
 	rnd := hx.NewRand(cfg.Seed)
+	curRun = r
 	r.Op("reset", "ok", false)
 
 	// --- enums: members
